@@ -29,7 +29,7 @@ KINDS = ["q-order", "mode-order", "weight-scale", "static-columns", "static-rows
 
 @st.composite
 def cases(draw):
-    s = draw(dataset_specs(max_nq=5, max_na=3, max_nt=3, interpolators=["lsq_poly", "spline", "pchip"]))
+    s = draw(dataset_specs(max_nq=5, max_na=3, max_nt=3, interpolators=["lsq_poly", "spline", "pchip", "lagrange", "krogh", "akima"]))
     s["order"] = min(s["order"], 3)
     s["kind"] = draw(st.sampled_from(KINDS))
     s["pseed"] = draw(st.integers(0, 10 ** 6))
